@@ -91,6 +91,7 @@ def run(ctx):
         ctx.obligations.append(dict(name="Props/C15 theorems", ok=False, why="theorem list missing"))
     kvh = C.build_harness("asan")
     rng = ctx.rng
+    diffs = C.unit_correspondence(ctx, kvh, C.gen_ops("gen_io.py", ctx.seed, 1 if ctx.quick else 8, prefixes=('write', 'gcg', 'parse_format')), "writers")
     sc = C.scratch()
     fails = []
     # (a) synthetic alignments through the writers
@@ -160,7 +161,8 @@ def run(ctx):
             ctx.sample(dict(records=c.records, file=c.outtext))
     for why, rep in fails[:5]:
         ctx.violation(why, dict(kind="oracle", detail=rep))
-    if not ok and not fails:
+    C.report_diffs(ctx, diffs, fails, "writers")
+    if not ok and not fails and not diffs:
         ctx.violation("proof obligations of C15 no longer check", dict(kind="proof", broken=[o for o in ctx.obligations if not o["ok"]],
                                                                         log=getattr(ctx, "build_errors", "")[-3000:]), no_input=True)
     return ctx.finish(LEVEL, CHECKER)
